@@ -8,6 +8,7 @@ import (
 	"encoding/json"
 	"fmt"
 	"math/rand/v2"
+	"sort"
 	"strings"
 
 	"verif/sim/drv"
@@ -23,13 +24,14 @@ type KVExec struct {
 	InstRepo map[string]int
 	InstType map[string]string
 	RepoRoot map[int]int // repo index -> root version index
+	MutLog   map[string][]string // "inst|version" -> acknowledged mutations in order ("postkv k" / "delete k")
 	Skipped  int         // ops skipped because they referenced something absent (after shrinking)
 	Rejected int         // set-up ops DVID refused although the generator's model allowed them
 }
 
 func NewKVExec(w *drv.World) *KVExec {
 	return &KVExec{W: w, D: NewDAG(), Insts: map[string]*KVModel{}, InstRepo: map[string]int{},
-		InstType: map[string]string{}, RepoRoot: map[int]int{}}
+		InstType: map[string]string{}, RepoRoot: map[int]int{}, MutLog: map[string][]string{}}
 }
 
 func (x *KVExec) uuid(v int) string { return x.D.Nodes[v].UUID }
@@ -137,10 +139,13 @@ func (x *KVExec) ApplyDAGOp(op drv.Op) (handled bool, v *drv.Violation, err erro
 		if !m.Versioned {
 			ver = x.RepoRoot[n.Repo]
 		}
+		lk := fmt.Sprintf("%s|%d", op.I, op.V)
 		if op.Op == "put" {
 			m.Put(ver, op.K, op.Val)
+			x.MutLog[lk] = append(x.MutLog[lk], "postkv "+op.K)
 		} else {
 			m.Delete(ver, op.K)
+			x.MutLog[lk] = append(x.MutLog[lk], "delete "+op.K)
 		}
 		return true, nil, nil
 	case "commit":
@@ -498,4 +503,45 @@ func (g *KVGen) genBranch(locked []int) {
 	idx := g.D.NextIdx()
 	g.D.Add(idx, VUUID(idx), []int{p}, name, g.D.Nodes[p].Repo)
 	g.Steps = append(g.Steps, drv.Op{Op: "branch", V: p, Br: name, N: int64(idx)})
+}
+
+// CheckMutationLogs: with the JSON mutation log enabled, GET .../mutations at a version
+// must list exactly the acknowledged key-value mutations of that version, in order.
+func (x *KVExec) CheckMutationLogs(prop string) (*drv.Violation, error) {
+	var keys []string
+	for k := range x.MutLog {
+		keys = append(keys, k)
+	}
+	sort.Strings(keys)
+	for _, lk := range keys {
+		parts := strings.SplitN(lk, "|", 2)
+		var v int
+		fmt.Sscan(parts[1], &v)
+		if !x.D.Has(v) || x.Insts[parts[0]] == nil || !x.Insts[parts[0]].Versioned {
+			// (unversioned instances file their log under the request's uuid but read it under
+			// the root's: not a restart/crash matter, left out of this oracle)
+			continue
+		}
+		st, body, err := x.W.HTTP("GET", "/api/node/"+x.uuid(v)+"/"+parts[0]+"/mutations", nil)
+		if err != nil {
+			return nil, err
+		}
+		if st != 200 {
+			return &drv.Violation{Prop: prop, Oracle: "mutation-log", Sig: "mutations endpoint fails", Detail: fmt.Sprintf("%s version %d: %d %s", parts[0], v, st, trunc(body))}, nil
+		}
+		var recs []struct{ Action, Key string }
+		if err := json.Unmarshal(body, &recs); err != nil {
+			return &drv.Violation{Prop: prop, Oracle: "mutation-log", Sig: "mutation log is not valid JSON", Detail: fmt.Sprintf("%s version %d: %s", parts[0], v, trunc(body))}, nil
+		}
+		var got []string
+		for _, r := range recs {
+			got = append(got, r.Action+" "+r.Key)
+		}
+		if strings.Join(got, ",") != strings.Join(x.MutLog[lk], ",") {
+			return &drv.Violation{Prop: prop, Oracle: "mutation-log", Sig: "mutation log differs from the acknowledged mutations",
+				Detail: fmt.Sprintf("%s version %d(%s)\n acknowledged: %v\n log yields:   %v", parts[0], v, x.uuid(v)[:4], x.MutLog[lk], got)}, nil
+		}
+		x.W.Stats.Probe("mutation-log-checked")
+	}
+	return nil, nil
 }
